@@ -128,6 +128,9 @@ class Facts:
             import inline
             self.anchor_notes += inline.inline_new_helpers(d, anchors._load())
             self.anchor_notes += inline.inline_new_closures(d, anchors._load())
+        if not os.environ.get("RM_NO_NORMALIZE"):
+            import normalize
+            self.n_index_calls = normalize.index_to_calls(d)
         self.meta = d["meta"]
         if H is not None and self.meta.get("nonce") != H:
             raise InfraError("fact file nonce mismatch")
